@@ -37,7 +37,7 @@ func genOptsFor(r *lib.Rng, i int, bigEvery int) lib.GenOpts {
 func c01Cases(tier string, seed uint64, flavor string) []lib.Case {
 	n, bigEvery := 160, 80
 	if tier == "thorough" {
-		n, bigEvery = 2500, 40
+		n, bigEvery = 12000, 40
 	}
 	if flavor != "plain" {
 		n, bigEvery = n/10, 0
